@@ -1315,6 +1315,9 @@ func (s *Store) GetRelatedAtTime(from *RelatedFrom, limit int) ([]qresult, *Rela
 					copy(cont.RelationIndexFromKey, k)
 					results = append(results, qresult{Time: uint64(et), EntityID: relatedID, PredicateID: predID, DatasetID: datasetID})
 					added[predID][relatedID] = true
+				} else if del != 1 {
+					// returned by an earlier page: must not be returned again for another dataset
+					added[predID][relatedID] = true
 				}
 
 				// set at end of iteration so that we jump over the item the previous page gave as continuation, while still
